@@ -165,7 +165,7 @@ def history(dc, sc, res, rng, label):
                     continue
                 got, exp = outcome(D.clear), outcome(R.clear)
             elif op == 'maxlen':
-                new = gen.pick(rng, [None, 1, 3, 7, 2])
+                new = gen.pick(rng, [None, 1, 3, 7, 2, 0])
                 args = (new,)
                 if new is not None and len(R) > new:
                     res.count('maxlen_trims')
